@@ -1,6 +1,7 @@
 import JsonVerif.Lemmas.Mapped
 import JsonVerif.Lemmas.Spans
 import JsonVerif.Lemmas.MappedKeyed
+import JsonVerif.Lemmas.TryFrom
 import JsonVerif.Model.Entry
 /-!
 # C11 — Code-map offsets navigate correctly (mapped iterators, fragment index, TryFrom)
@@ -70,6 +71,26 @@ theorem C11_parsed_object (cs : List Char) (es : List (Key × JValue)) (cm : Lis
     (h : parseStr ⟨false, false⟩ cs = .ok (.object es, cm)) :
     objectMapped cm 0 es = some (offsetsM 1 es) := by
   have := C11_object cm es [] [] (by simpa using parse_volumes h)
+  simpa using this
+
+/-- **Typed conversions** (`TryFromJson` for bool / String / unit / u8, `Vec<T>`, `BTreeMap<String,T>`,
+    `Option<T>`, `Box<T>`, nested at will): on a well-formed code map the conversion never panics
+    and is the fragment-counting specification `convSpec` … -/
+theorem C11_conversion (cm : List CMEntry) (t : CTy) (v : JValue) (pre post : List Nat)
+    (h : volumes cm = pre ++ volsV v ++ post) :
+    tryFrom cm t v pre.length = some (convSpec t v pre.length) := tryFrom_eq cm t v pre post h
+
+/-- … and when it fails, the reported offset is that of the offending fragment: `offset` plus the
+    pre-order index of a value fragment which the sub-conversion reaching it rejects at its root
+    (wrong kind, or not a `u8`). -/
+theorem C11_conversion_error (t : CTy) (v : JValue) (off e : Nat) (h : convSpec t v off = .error e) :
+    ∃ i w t', e = off + i ∧ (preV v)[i]? = some (.value w) ∧ headOk t' w = false :=
+  convSpec_bad t v off e h
+
+/-- On parsed documents (C05 supplies the hypothesis). -/
+theorem C11_parsed_conversion (cs : List Char) (v : JValue) (cm : List CMEntry) (t : CTy)
+    (h : parseStr ⟨false, false⟩ cs = .ok (v, cm)) : tryFrom cm t v 0 = some (convSpec t v 0) := by
+  have := C11_conversion cm t v [] [] (by simpa using parse_volumes h)
   simpa using this
 
 /-- **Keyed mapped lookups** (`get_mapped*`, `get_unique_mapped*`, `get_mapped_entries*`): under the
